@@ -7,6 +7,7 @@ import (
 	"flag"
 	"fmt"
 	"os"
+	"os/exec"
 	"path/filepath"
 	"sort"
 	"strconv"
@@ -318,6 +319,18 @@ func cmdCheck(args []string) int {
 			unverified = append(unverified, n)
 		}
 	}
+	// thorough tier: the machinery is tested against the defects recorded for this property - every
+	// seeded patch in /verif/seeded/<id>-*/ is applied to a scratch copy of /repo (outside /repo and
+	// /verif, removed afterwards) and the quick check must fail there
+	var selftest []interface{}
+	if *tier == "thorough" && violations == 0 && os.Getenv("GOVC_NO_SELFTEST") == "" {
+		selftest = runSelftest(*repo, *verifDir, id)
+		for _, r := range selftest {
+			if m := r.(map[string]interface{}); m["detected"] == false && m["applies"] == true {
+				lines = append(lines, fmt.Sprintf("SELFTEST-MISS: property=%s seeded defect %s is not detected by this check (a hole in the contracts, not a violation of the property)", id, m["seed"]))
+			}
+		}
+	}
 	ev := map[string]interface{}{
 		"property_id": id, "tier": *tier, "seed": seed, "level": "proof",
 		"coverage": map[string]interface{}{
@@ -333,6 +346,7 @@ func cmdCheck(args []string) int {
 			"outside_subset":    outside,
 			"functions_without_contract_in_packages": unverified,
 			"dependency_obligations_included": nDep,
+			"selftest_seeded_defects":         selftest,
 			"explanation":       "every obligation is generated from the SSA form of /repo's current working tree plus the //@ contracts in /repo/verif_contracts.go; unsat of the negated obligation holds for all values of the symbolic inputs",
 		},
 		"assumptions": as,
@@ -510,4 +524,65 @@ func participates(c *Contract, id string) bool {
 		}
 	}
 	return false
+}
+
+// runSelftest applies each seeded defect recorded for the property to a scratch copy of the repository
+// and runs the quick check on it; the check is expected to fail.
+func runSelftest(repo, verifDir, id string) []interface{} {
+	var out []interface{}
+	dirs, _ := filepath.Glob(filepath.Join(verifDir, "seeded", id+"-*"))
+	sort.Strings(dirs)
+	for _, d := range dirs {
+		patch := filepath.Join(d, "patch.diff")
+		if _, err := os.Stat(patch); err != nil {
+			continue
+		}
+		res := map[string]interface{}{"seed": filepath.Base(d)}
+		scratch, err := os.MkdirTemp("", "govc-selftest")
+		if err != nil {
+			continue
+		}
+		func() {
+			defer os.RemoveAll(scratch)
+			rcopy := filepath.Join(scratch, "repo")
+			vcopy := filepath.Join(scratch, "verif")
+			os.MkdirAll(vcopy, 0o755)
+			if b, err := exec.Command("cp", "-r", repo, rcopy).CombinedOutput(); err != nil {
+				res["applies"], res["note"] = false, "copy failed: "+string(b)
+				return
+			}
+			if data, err := os.ReadFile(filepath.Join(verifDir, "known_findings.json")); err == nil {
+				os.WriteFile(filepath.Join(vcopy, "known_findings.json"), data, 0o644)
+			}
+			rf := exec.Command("git", "update-index", "-q", "--refresh")
+			rf.Dir = rcopy
+			rf.Run()
+			ap := exec.Command("git", "apply", "--3way", patch)
+			ap.Dir = rcopy
+			if b, err := ap.CombinedOutput(); err != nil {
+				res["applies"], res["note"] = false, "patch does not apply to the current tree: "+firstLines(string(b), 2)
+				return
+			}
+			res["applies"] = true
+			cmd := exec.Command(os.Args[0], "check", "--repo", rcopy, "--verif", vcopy, "--property", id, "--tier", "quick")
+			cmd.Env = append(os.Environ(), "GOVC_NO_SELFTEST=1")
+			b, _ := cmd.CombinedOutput()
+			text := string(b)
+			res["detected"] = strings.Contains(text, "VIOLATION property="+id)
+			n := 0
+			for _, l := range strings.Split(text, "\n") {
+				if strings.HasPrefix(l, "VIOLATION") {
+					if n == 0 {
+						if i := strings.Index(l, "obligation="); i >= 0 {
+							res["first_obligation"] = strings.Fields(l[i+len("obligation="):])[0]
+						}
+					}
+					n++
+				}
+			}
+			res["violations_reported"] = n
+		}()
+		out = append(out, res)
+	}
+	return out
 }
